@@ -21,7 +21,7 @@ FIN = 'kopf.zalando.org/KopfFinalizerMarker'
 PREFIX = 'kopf.zalando.org'
 NEVER = 1000000
 REASONS = ('create', 'update', 'delete', 'resume')
-UNIVERSE = ['a', 'b', 'c', 'd', 'r', 'a/x', 'a/y']       # 'a/x', 'a/y': sub-handlers of 'a' (scenario key `subs`)
+UNIVERSE = ['a', 'b', 'c', 'd', 'e', 'r', 'a/x', 'a/y']       # 'a/x', 'a/y': sub-handlers of 'a' (scenario key `subs`)
 
 
 def ess_id(x: Any, on: bool) -> int:
@@ -372,7 +372,7 @@ def _tla_set(xs) -> str:
     return '{' + ', '.join(json.dumps(x) for x in xs) + '}'
 
 
-CFG = ('SPECIFICATION TSpec\nCONSTANTS\n  H = {"a", "b", "c", "d", "r", "a/x", "a/y"}\n  ConfSet = {}\n  Delays <- Del\n  EssVals <- Ess\n'
+CFG = ('SPECIFICATION TSpec\nCONSTANTS\n  H = {"a", "b", "c", "d", "e", "r", "a/x", "a/y"}\n  ConfSet = {}\n  Delays <- Del\n  EssVals <- Ess\n'
        '  Foreign <- For\n  Horizon = 100000\n  Doors <- AllDoors\n'
        '  MaxEdits = 1000\n  MaxFails = 1000\n  MaxKills = 1000\n  MaxStops = 1000\n  MaxDeletes = 1000\n  MaxForeign = 1000\n'
        '  MaxToggles = 1000\n  MaxRelists = 1000\n  MaxHolds = 1000\n'
@@ -458,6 +458,15 @@ def gen_scenarios(seed: int, n: int, profile: str) -> list[dict[str, Any]]:
             hs['d'] = hdl(['delete'], script(rnd.randint(0, 2)), optional=rnd.random() < 0.25, backoff=rnd.choice([1, 2]))
         if profile in ('resume', 'converge', 'progress') and rnd.random() < (0.95 if profile == 'resume' else 0.3):
             hs['r'] = hdl(['resume'], script(rnd.randint(0, 2)), deleted=rnd.random() < 0.3, backoff=rnd.choice([1, 2]))
+        # (a stream of its own, so that the histories of earlier rounds stay what they were) a second deletion handler, which makes the
+        # deletion a multi-step cycle under the one-per-cycle lifecycles, and errors that ask for a retry at once (delay 0)
+        r2 = random.Random(f'{profile}-x-{seed}-{i}')
+        if 'd' in hs and r2.random() < 0.45:
+            hs['e'] = hdl(['delete'], [r2.choice(['ok', 'ok', ('temp', 0), ('temp', 1), 'exc'])] * r2.randint(0, 1), optional=False, backoff=r2.choice([0, 1]))
+        if 'd' in hs and r2.random() < 0.3:
+            hs['d']['script'] = [('temp', 0)] + list(hs['d']['script'])
+        if profile == 'errors' and r2.random() < 0.3:
+            h0 = r2.choice(sorted(hs)); hs[h0]['script'] = [('temp', 0)] + list(hs[h0]['script'])
         env: list[tuple] = []
         t = 1
         x = 1
